@@ -73,6 +73,15 @@ pub fn run_scenario(seed: u64, i: usize, tier: Tier) -> Outcome {
     if r.chance(1, 2) {
         t.delay_ns.1 = t.delay_ns.0 + r.range(0, 30_000_000);
     }
+    // duplicated responses (a second copy some time after the first): they complete nothing and
+    // must not move the timing either
+    let mut hops = hops;
+    if r.chance(1, 4) {
+        for h in hops.iter_mut().chain(std::iter::once(&mut t)) {
+            h.dup_pct = 60;
+            h.dup_delay_ns = (1_000, (grace.max(2) * 1_500_000).max(2_000));
+        }
+    }
     let topo = Topology { hops, target: t, tcp: *r.pick(&[TcpMode::SynAck, TcpMode::Rst]) };
     let wcfg = world_cfg(topo, seed ^ i as u64);
     let site = cell.name();
@@ -140,7 +149,7 @@ pub fn run_scenario(seed: u64, i: usize, tier: Tier) -> Outcome {
 
 pub fn run(tier: Tier, seed: u64, only: Option<usize>) -> i32 {
     let mut rep = Report::new("C08", "exploration", tier, seed);
-    rep.rule = "scenario = (min in {0,50,1000}ms, max in {min, min+1, min+40, 5000}ms, grace in {0,10,100,1000}ms, read timeout in {1,10,100}ms) x unrelated inbound traffic (an ignored ICMP echo request every half read timeout, one scenario in five) x response placement of each hop and of the target at {never, ~0, 0.2 min, 0.9 min, between min and max, inside the grace window before max, after max}; the 16 combinations of (target answered, duration > min, grace elapsed, duration > max) observed at publish time are listed under distinct_observed.timing_cases; non-trivial = at least one round published; distinct by (protocol, timing setting, target placement)".into();
+    rep.rule = "scenario = (min in {0,50,1000}ms, max in {min, min+1, min+40, 5000}ms, grace in {0,10,100,1000}ms, read timeout in {1,10,100}ms) x duplicated responses (one scenario in four) x unrelated inbound traffic (an ignored ICMP echo request every half read timeout, one scenario in five) x response placement of each hop and of the target at {never, ~0, 0.2 min, 0.9 min, between min and max, inside the grace window before max, after max}; the 16 combinations of (target answered, duration > min, grace elapsed, duration > max) observed at publish time are listed under distinct_observed.timing_cases; non-trivial = at least one round published; distinct by (protocol, timing setting, target placement)".into();
     rep.assumptions = vec![
         "durations are evaluated at the publish callback instant, which is >= the instant the code sampled (durations are monotone, so this can only err towards silence); 10us of slack covers 1ns clock ticks".into(),
         "select() has millisecond granularity, as in trippy's real socket implementation".into(),
